@@ -127,9 +127,14 @@ class JointBase(Assembly, abc.ABC):
         self.assemblies[0].chop_radial(**kwargs)
 
     def chop_tangential(self, **kwargs):
-        # every second branch; the ones in between get their counts from both neighbours
-        for asm in self.assemblies[::2]:
-            asm.chop_tangential(**kwargs)
+        # The first branch gets the whole chop. Each following branch shares one half with its predecessor;
+        # chop only the one block of its other half that is left undefined (chopping two neighbouring
+        # branches in full specifies their common blocks twice - with a cell size, not even alike).
+        # The last branch is defined by its two neighbours.
+        self.assemblies[0].chop_tangential(**kwargs)
+
+        for asm in self.assemblies[1:-1]:
+            asm.cusp_right.operations[2].chop(1, **kwargs)
 
     def set_outer_patch(self, patch_name: str) -> None:
         for asm in self.assemblies:
